@@ -1,5 +1,6 @@
 pub mod c07;
 pub mod c09;
+pub mod c10;
 pub mod c19;
 pub mod c20;
 pub mod common;
